@@ -4,7 +4,7 @@ CHECK = {
         suite("auth", "c07", 160, 1600, stdin=True, args=["-suite", "auth"], timeout={"quick": 600, "thorough": 1800}),
         suite("rep", "c07", 8, 160, stdin=True, args=["-suite", "rep"], timeout={"quick": 600, "thorough": 2400}),
     ],
-    "lean_sources": ["ClusterVerif/Model/C07.lean", "ClusterVerif/Spec/C07.lean", "ClusterVerif/Gen/C07.lean",
+    "lean_sources": ["ClusterVerif/Model/C07.lean", "ClusterVerif/Model/C07Sys.lean", "ClusterVerif/Spec/C07.lean", "ClusterVerif/Gen/C07.lean",
                      "ClusterVerif/Lemmas/C07.lean", "Driver/C07.lean"],
     "rule": "auth: one configuration = (policy table shipped/follower/custom overrides) x (raft | crdt trusted_peers list with '*', repeats, "
             "id-only peers) x (0-5 Trust/Distrust calls); per configuration IsTrustedPeer of the real consensus for 7 peers, and for one "
